@@ -1148,7 +1148,7 @@ class GenericPlainRegistry(Generic[QuantityT, UnitT], metaclass=RegistryMeta):
                         continue
                 if case_sensitive:
                     if name in self._units:
-                        if prefix and name in self._prefixed_unit_names:
+                        if name in self._prefixed_unit_names and (prefix or suffix):
                             # e.g. 'kilo' + 'kilogram': accepted only after 'kilogram'
                             # had been looked up, and with the prefix applied twice.
                             continue
